@@ -80,7 +80,20 @@ type Lemma struct {
 	Expect string // "" = must be valid ; "sat" = known finding style
 }
 
+type UFunc struct {
+	Name string
+	Sig  string // SMT signature "(sorts) ret"
+	Ret  string
+}
+
+type SMTAxiom struct {
+	Name string
+	Text string
+}
+
 type ContractSet struct {
+	UFuncs   map[string]*UFunc
+	Axioms   []*SMTAxiom
 	Funcs    map[string]*Contract // key: pkgpath + "::" + Key  (trusted: Key only)
 	Specs    map[string]*SpecFn
 	Ghosts   map[string]*GhostVar
@@ -90,13 +103,13 @@ type ContractSet struct {
 }
 
 func newContractSet() *ContractSet {
-	return &ContractSet{Funcs: map[string]*Contract{}, Specs: map[string]*SpecFn{}, Ghosts: map[string]*GhostVar{}}
+	return &ContractSet{UFuncs: map[string]*UFunc{}, Funcs: map[string]*Contract{}, Specs: map[string]*SpecFn{}, Ghosts: map[string]*GhostVar{}}
 }
 
 var clauseKw = map[string]bool{"props": true, "tier": true, "requires": true, "ensures": true, "modifies": true, "loop": true,
 	"panics": true, "inline": true, "pure": true, "assumes": true, "universe": true, "fresh": true, "params": true, "note": true}
 
-var topKw = map[string]bool{"func": true, "trusted": true, "spec": true, "ghost": true, "lemma": true, "axiom": true, "purepkg": true}
+var topKw = map[string]bool{"ufunc": true, "smtaxiom": true, "func": true, "trusted": true, "spec": true, "ghost": true, "lemma": true, "axiom": true, "purepkg": true}
 
 type rawLine struct {
 	text string
@@ -255,6 +268,25 @@ func (cs *ContractSet) parseFile(fset *token.FileSet, f *ast.File, pkgPath strin
 			}
 			lm.Expr = parse(it, lm.Src)
 			cs.Lemmas = append(cs.Lemmas, lm)
+			cur = nil
+		case "ufunc":
+			// ufunc name (sorts) ret
+			i := strings.Index(it.rest, "(")
+			j := strings.LastIndex(it.rest, ")")
+			if i < 0 || j < i {
+				errf(it, "bad ufunc")
+				continue
+			}
+			name := strings.TrimSpace(it.rest[:i])
+			cs.UFuncs[name] = &UFunc{Name: name, Sig: strings.TrimSpace(it.rest[i:]), Ret: strings.TrimSpace(it.rest[j+1:])}
+			cur = nil
+		case "smtaxiom":
+			i := strings.Index(it.rest, ":")
+			if i < 0 {
+				errf(it, "bad smtaxiom")
+				continue
+			}
+			cs.Axioms = append(cs.Axioms, &SMTAxiom{Name: strings.TrimSpace(it.rest[:i]), Text: strings.TrimSpace(it.rest[i+1:])})
 			cur = nil
 		case "purepkg":
 			cs.PurePkgs = append(cs.PurePkgs, strings.Fields(it.rest)...)
